@@ -59,6 +59,8 @@ structure Cmd where
   writes : List OutDef
   /-- files outside inputs/outputs the command writes (external conditions inspected by output checks) -/
   sets : List (Path × Val)
+  /-- "splitter": output k is a copy of the k-th resolved input (so an edit can make two outputs swap contents) -/
+  split : Bool
 deriving DecidableEq
 
 /-- what a command can read when it runs -/
@@ -144,9 +146,12 @@ structure Fixes where
   rerunOnce : Bool
   /-- minimal mode accepts a hit only if the stored result describes the declared outputs -/
   minValidate : Bool
+  /-- when the stored result of a dependency cannot be read while dependency outputs are loaded, its own
+      dependencies are loaded, it is re-run (unless already produced in this build) and the loop continues -/
+  loadFault : Bool
 deriving DecidableEq
 
-def Fixes.current : Fixes := ⟨true, true, true, true⟩
+def Fixes.current : Fixes := ⟨true, true, true, true, true⟩
 
 structure Params (κ : Type) where
   K : KeyState κ → κ
@@ -277,7 +282,14 @@ def loadDepList (P : Params κ) (cfg : Cfg) (defs : Defs) : Nat → List Lbl →
       | none => (s, false)
       | some dk =>
         match s.cache.res dk with
-        | none => execTarget P cfg defs dt dk false s      -- "re-run immediately", and return
+        | none =>
+          if P.fx.loadFault then
+            if dst.loaded then loadDepList P cfg defs n ds s else
+            let (s2, ok2) := loadDepList P cfg defs n dt.ldeps s
+            if !ok2 then (s2, false) else
+            let (s3, ok3) := execTarget P cfg defs dt dk false s2
+            if !ok3 then (s3, false) else loadDepList P cfg defs n ds s3
+          else execTarget P cfg defs dt dk false s      -- old: "re-run immediately", and return from the loop
         | some r =>
           match loadOutputs dt r s with
           | some s1 =>
